@@ -18,6 +18,7 @@ package main
 // "position not found" error there).
 
 import (
+	"bytes"
 	"crypto/sha256"
 	"encoding/hex"
 	"fmt"
@@ -29,6 +30,7 @@ import (
 	clptypes "github.com/Sifchain/sifnode/x/clp/types"
 	ethtypes "github.com/Sifchain/sifnode/x/ethbridge/types"
 	margintypes "github.com/Sifchain/sifnode/x/margin/types"
+	oracletypes "github.com/Sifchain/sifnode/x/oracle/types"
 	trtypes "github.com/Sifchain/sifnode/x/tokenregistry/types"
 	"github.com/cosmos/cosmos-sdk/store/rootmulti"
 	storetypes "github.com/cosmos/cosmos-sdk/store/types"
@@ -145,6 +147,7 @@ func init() {
 				signerStr = upperOf(signer) // the Signer field in its upper-case spelling: the same account
 			}
 			cctx, write := ctx.CacheContext()
+			stored := storedAuth(app, cctx, signer)
 			before := hashStores(cctx, keys)
 			res := protect(func() string {
 				msg := hc.build(cctx, signerStr, k)
@@ -171,6 +174,9 @@ func init() {
 			// the msg line then moves the model's role table
 			out.Emit(fmt.Sprintf("chk c08.guard.%s.%s tag=auth.%s.%s %s %s %s %s %s", hc.module, hc.name, hc.module, hc.name, hc.module, hc.name, signerStr, res, b2s(changed)),
 				"true", "chk.guard", false)
+			// on the property's own terms, from the implementation alone: accepted ⇒ the signer holds the role AS STORED
+			out.Emit(fmt.Sprintf("chk c08.stored.%s.%s tag=auth.stored.%s.%s %s %s %s %s", hc.module, hc.name, hc.module, hc.name, hc.module, hc.name, res, stored),
+				"true", "chk.stored", false)
 			if !hc.lenient {
 				out.Emit(op, res, cls, true)
 			} else {
@@ -185,6 +191,32 @@ func init() {
 					out.Emit(fmt.Sprintf("chk c08.removed tag=auth.admin.RemoveAccount.stillholds %s %s %s", role, raw, b2s(still)), "true", "chk.removed", false)
 				}
 			}
+		}
+
+		// a multi-message transaction (kind "tx": written back only if every message succeeded — baseapp's discipline)
+		// or a simulation (kind "sim": the branch is never written back)
+		runTx := func(kind string, signer sdk.AccAddress, items []txItem) {
+			cctx, write := ctx.CacheContext()
+			res := "ok"
+			descr := ""
+			for _, it := range items {
+				descr += " " + it.descr(signer.String())
+				if res != "ok" {
+					continue // baseapp stops at the first failing message
+				}
+				it := it
+				res = protect(func() string {
+					msg := it.hc.build(cctx, signer.String(), it.k)
+					if _, err := app.MsgServiceRouter().Handler(msg)(cctx, msg); err != nil {
+						return "err"
+					}
+					return "ok"
+				})
+			}
+			if kind == "tx" && res == "ok" {
+				write()
+			}
+			out.Emit(fmt.Sprintf("%s %d%s", kind, len(items), descr), res, "branch."+kind+"."+res, true)
 		}
 
 		// phase 1: the full matrix handler × signer on the initial table
@@ -225,6 +257,15 @@ func init() {
 		run(updatePools, addrs[13], 6*13)
 		for out.N < n {
 			k++
+			if rng.Chance(1, 4) {
+				// a state branch that is dropped — a transaction whose later message fails, a simulation — after a grant
+				// (or removal) and a role lookup on it; then, in a later transaction, a privileged message of the account
+				items, kind, acct, follow := branchScenario(rng, cases, NACC)
+				adm := addrs[[]int{4, 10, 10, rng.Intn(NACC)}[rng.Intn(4)]]
+				runTx(kind, adm, items)
+				run(follow, addrs[acct], k)
+				continue
+			}
 			var hc handlerCase
 			if rng.Chance(1, 2) {
 				hc = cases[0]
@@ -254,6 +295,109 @@ func init() {
 // case, in upper case or by a string that is no address, independently per message (so a role may be granted under
 // one spelling and removed under another); other address-typed payload fields and the Signer field itself use the
 // upper-case form now and then.
+// storedAuth reads, from the RAW key/value pairs of the three role stores as seen through ctx (never through
+// IsAdminAccount / ValidateAddress), what the account holds: the admin roles whose key "<TYPE>_<address>" names its
+// canonical string, whether the oracle admin entry is its bytes, whether the clp whitelist entry lists its string.
+func storedAuth(app *sifapp.SifchainApp, ctx sdk.Context, a sdk.AccAddress) string {
+	var roles []string
+	st := ctx.KVStore(app.GetKey(admintypes.StoreKey))
+	it := sdk.KVStorePrefixIterator(st, admintypes.AdminAccountStorePrefix)
+	for ; it.Valid(); it.Next() {
+		key := string(it.Key()[len(admintypes.AdminAccountStorePrefix):])
+		if i := strings.Index(key, "_"); i >= 0 && key[i+1:] == a.String() {
+			roles = append(roles, key[:i])
+		}
+	}
+	it.Close()
+	sort.Strings(roles)
+	r := "-"
+	if len(roles) > 0 {
+		r = strings.Join(roles, ",")
+	}
+	// oracle admin: gogotypes.BytesValue{Value: addr} = 0x0a <len> <addr bytes>
+	ov := ctx.KVStore(app.GetKey(oracletypes.StoreKey)).Get(oracletypes.AdminAccountPrefix)
+	oracle := bytes.Equal(ov, append([]byte{0x0a, byte(len(a))}, a...))
+	// clp whitelist: a list of bech32 strings
+	cv := ctx.KVStore(app.GetKey(clptypes.StoreKey)).Get(clptypes.WhiteListValidatorPrefix)
+	clp := bytes.Contains(cv, []byte(a.String()))
+	return r + " " + b2s(oracle) + " " + b2s(clp)
+}
+
+// txItem: one message of a multi-message transaction
+type txItem struct {
+	hc handlerCase
+	k  int
+}
+
+// descr: the six tokens describing a message on a tx / sim line
+func (t txItem) descr(signer string) string {
+	if t.hc.payload != nil {
+		r, a := t.hc.payload(t.k)
+		return fmt.Sprintf("%s %s %s %s %s %s", t.hc.module, t.hc.name, signer, r, a, canonOf(a))
+	}
+	return fmt.Sprintf("%s %s %s - - -", t.hc.module, t.hc.name, signer)
+}
+
+// roleOfCase: the admin role a handler asks for (to steer the generator only)
+func roleOfCase(hc handlerCase) string {
+	switch {
+	case hc.module == "admin":
+		return "ADMIN"
+	case hc.module == "tokenregistry":
+		return "TOKENREGISTRY"
+	case hc.module == "margin":
+		return "MARGIN"
+	case hc.module == "ethbridge" && (hc.name == "SetPause" || hc.name == "SetBlacklist"):
+		return "ETHBRIDGE"
+	case hc.module == "clp" && (hc.name == "SetSymmetryThreshold" || hc.name == "UpdateLiquidityProtectionParams" || hc.name == "ModifyLiquidityProtectionRates"):
+		return "CLPDEX"
+	case hc.module == "clp" && hc.name != "DecommissionPool":
+		return "PMTPREWARDS"
+	}
+	return ""
+}
+
+// branchScenario picks a discarded-branch scenario: the items of a transaction by an ADMIN that grants (or removes)
+// `role` to (from) account `acct`, then does a role lookup, then (for kind "tx") fails; and a simple handler asking
+// for that role, to be sent by `acct` in a LATER transaction.
+func branchScenario(rng *Rng, cases []handlerCase, nacc int) (items []txItem, kind string, acct int, follow handlerCase) {
+	var setParams handlerCase
+	var simple []handlerCase
+	for _, hc := range cases {
+		if hc.name == "SetParams" {
+			setParams = hc
+		}
+		if !hc.lenient && hc.payload == nil && hc.name != "DecommissionPool" && roleOfCase(hc) != "" {
+			simple = append(simple, hc)
+		}
+	}
+	follow = simple[rng.Intn(len(simple))]
+	roleIdx := 0
+	for i, r := range authRoles {
+		if r.String() == roleOfCase(follow) {
+			roleIdx = i
+		}
+	}
+	acct = rng.Intn(nacc)
+	k := roleIdx + 6*acct // canonical spelling
+	grant := cases[0]
+	if rng.Chance(1, 3) {
+		grant = cases[1] // a removal that is rolled back
+	}
+	items = []txItem{{grant, k}, {setParams, int(rng.Intn(1000))}}
+	if rng.Chance(1, 2) {
+		items = append(items, txItem{follow, int(rng.Intn(1000))}) // a second lookup, for another role
+	}
+	kind = "sim"
+	if rng.Chance(1, 2) {
+		kind = "tx"
+		if rng.Chance(4, 5) {
+			items = append(items, txItem{cases[0], k + 7*6*nacc}) // AddAccount naming no address: fails behind the guard
+		}
+	}
+	return
+}
+
 func upperOf(a sdk.AccAddress) string { return strings.ToUpper(a.String()) }
 
 // canonOf: the canonical string of the account a spelling denotes according to cosmos-sdk's bech32 code
